@@ -187,27 +187,33 @@ func init() {
 		emit(totalCmap12Build(nil, 0), "fixed")
 		emit(one(65, 90, 1), "fixed")
 		emit(one(0, 0, 0), "fixed")
-		emit(one(0, 65535, 0), "fixed")                   // exactly 65536 codes
-		emit(one(0, 65536, 0), "fixed")                   // 65537 codes: gid bound
-		emit(one(5, 4, 0), "fixed")                       // end < start
-		emit(one(0xFFFFFFFF, 0xFFFFFFFF, 0), "fixed")     // end = 0xFFFFFFFF
-		emit(one(0xFFFFFFFE, 0xFFFFFFFE, 7), "fixed")     // last legal code
+		emit(one(0, 65535, 0), "fixed")                    // exactly 65536 codes
+		emit(one(0, 65536, 0), "fixed")                    // 65537 codes: gid bound
+		emit(one(5, 4, 0), "fixed")                        // end < start
+		emit(one(0xFFFFFFFF, 0xFFFFFFFF, 0), "fixed")      // end = 0xFFFFFFFF
+		emit(one(0xFFFFFFFE, 0xFFFFFFFE, 7), "fixed")      // last legal code
 		emit(one(0xFFFFFFFD, 0xFFFFFFFE, 0xFFFE), "fixed") // gid+c wraps in uint32
 		emit(one(0xFFFF0000, 0xFFFFFFFE, 1), "fixed")
 		emit(one(0xFFFF0000, 0xFFFFFFFF, 0), "fixed")
-		emit(one(10, 10, 0xFFFF), "fixed")       // startGlyphID 0xFFFF, 1 code
-		emit(one(10, 11, 0xFFFF), "fixed")       // startGlyphID 0xFFFF, 2 codes
-		emit(one(10, 10, 0x10000), "fixed")      // startGlyphID > 0xFFFF
-		emit(one(10, 10, 0xFFFFFFFF), "fixed")   // gid + delta wraps
-		emit(one(10, 11, 0xFFFFFFFF), "fixed")   // gid + delta wraps to 0
-		emit(one(0, 0xFFFFFFFE, 0), "fixed")     // huge range
-		emit(one(1, 0, 0), "fixed")              // end-start+1 wraps to 0
+		emit(one(10, 10, 0xFFFF), "fixed")     // startGlyphID 0xFFFF, 1 code
+		emit(one(10, 11, 0xFFFF), "fixed")     // startGlyphID 0xFFFF, 2 codes
+		emit(one(10, 10, 0x10000), "fixed")    // startGlyphID > 0xFFFF
+		emit(one(10, 10, 0xFFFFFFFF), "fixed") // gid + delta wraps
+		emit(one(10, 11, 0xFFFFFFFF), "fixed") // gid + delta wraps to 0
+		emit(one(0, 0xFFFFFFFE, 0), "fixed")   // huge range
+		emit(one(1, 0, 0), "fixed")            // end-start+1 wraps to 0
+		// startGlyphID+(end-start) wraps in uint32: the validity test passes, only the size cap rejects
+		emit(one(0, 0xFFFFFFFE, 2), "gidwrap")
+		emit(one(0, 0xFFFFFFFE, 1), "gidwrap") // sum = 0xFFFFFFFF: rejected by the test itself
+		emit(totalCmap12Build([]totalCmap12Group{{0, 0, 0}, {1, 0xFFFFFFFE, 3}}, 2), "gidwrap")
+		emit(totalCmap12Build([]totalCmap12Group{{0, 9, 0}, {10, 0xFFFFFFFE, 0xFFFF}}, 2), "gidwrap") // size reaches 0xFFFFFFFF, no wrap
+		emit(totalCmap12Build([]totalCmap12Group{{0, 65534, 0}, {65535, 0xFFFFFFFE, 0xFFFF}}, 2), "gidwrap")
 		emit(one(1, 0, 0xFFFFFFFF), "fixed")
-		emit(totalCmap12Build([]totalCmap12Group{{0, 9, 1}, {10, 19, 11}}, 2), "fixed")  // touching
-		emit(totalCmap12Build([]totalCmap12Group{{0, 9, 1}, {9, 19, 11}}, 2), "fixed")   // overlapping by one
-		emit(totalCmap12Build([]totalCmap12Group{{0, 9, 1}, {5, 7, 11}}, 2), "fixed")    // nested
-		emit(totalCmap12Build([]totalCmap12Group{{20, 29, 1}, {0, 9, 11}}, 2), "fixed")  // descending
-		emit(totalCmap12Build([]totalCmap12Group{{0, 0, 1}, {0, 0, 1}}, 2), "fixed")     // i>0, start = prevEnd = 0
+		emit(totalCmap12Build([]totalCmap12Group{{0, 9, 1}, {10, 19, 11}}, 2), "fixed") // touching
+		emit(totalCmap12Build([]totalCmap12Group{{0, 9, 1}, {9, 19, 11}}, 2), "fixed")  // overlapping by one
+		emit(totalCmap12Build([]totalCmap12Group{{0, 9, 1}, {5, 7, 11}}, 2), "fixed")   // nested
+		emit(totalCmap12Build([]totalCmap12Group{{20, 29, 1}, {0, 9, 11}}, 2), "fixed") // descending
+		emit(totalCmap12Build([]totalCmap12Group{{0, 0, 1}, {0, 0, 1}}, 2), "fixed")    // i>0, start = prevEnd = 0
 		emit(totalCmap12Build([]totalCmap12Group{{0, 0, 1}, {1, 1, 1}}, 2), "fixed")
 		// nSegments field vs. actual length
 		emit(totalCmap12Build([]totalCmap12Group{{0, 9, 1}}, 0), "nseg")
@@ -215,7 +221,7 @@ func init() {
 		emit(totalCmap12Build(nil, 1), "nseg")
 		emit(totalCmap12Build(nil, 1000001), "nseg")
 		emit(totalCmap12Build(nil, 0xFFFFFFFF), "nseg")
-		emit(totalCmap12Build([]totalCmap12Group{{0, 9, 1}}, 0x15555556), "nseg")  // 16+n*12 = 28 mod 2^32
+		emit(totalCmap12Build([]totalCmap12Group{{0, 9, 1}}, 0x15555556), "nseg") // 16+n*12 = 28 mod 2^32
 		emit(totalCmap12Build([]totalCmap12Group{{0, 9, 1}}, 0x80000001), "nseg")
 		emit(totalCmap12Build([]totalCmap12Group{{0, 9, 1}}, 0x01000001), "nseg")
 		// cumulative size: totals 65535 / 65536 / 65537 split over several groups
